@@ -828,5 +828,19 @@ def initial_states_rule(ctx, rid):
             ctx.bad("wto_iterator::visit uses the stored pre-state `%s` as the value to analyse a block with: the pre-state of the start "
                     "block is the initial value only until the block is reached again through a predecessor" % src(c)[:50], fn, c,
                     sig="visit-reads-stored-pre", rid=rid)
+    # the iterator object copies the initial states from the table when it is constructed: set_pre(entry, init) comes first
+    for fn in _fns(ctx, ITER + "::run"):
+        body = fn["body"]
+        f = paths.must_events(body, lambda x: ("set_pre",) if is_call(x, name="set_pre") else ())
+        for dcl in walk(body):
+            if dcl.get("k") == "decl" and "wto_iterator" in ((dcl.get("T") or "") + (dcl.get("TC") or "")):
+                n += 1
+                st = f.at.get(id(dcl))
+                if st is not None and "set_pre" in st:
+                    ctx.ok("run: set_pre(entry, init) precedes the construction of the WTO iterator", fn, dcl, rid=rid)
+                else:
+                    ctx.bad("run constructs the WTO iterator (which copies the initial states of the start block from the invariant "
+                            "table) before set_pre(entry, init): the analysis starts from bottom", fn, dcl,
+                            sig="iterator-before-set-pre", rid=rid)
     if n == 0:
         ctx.fail("rule %s: no predecessor join found in wto_iterator::visit" % rid)
